@@ -59,6 +59,8 @@ def gen(rng, tier, no, wide=False):
                        "test_iteration": sel(steps), "device": rng.choice(["ALL", "CPU", "GPU"]),
                        "short": rng.random() < 0.4, "same_object": same and rng.random() < 0.5, "same": same,
                        "labels": rng.choice([["control", "test"], ["control", "test"], ["run", "run"], ["t1", "t1"], ["a b", "a"]])}}
+    # the three documented ways of handing a trace over: a LabeledTrace, a Trace object, a trace directory
+    case["params"]["arg_form"] = rng.choice(["labeled", "labeled", "labeled", "trace", "dir"])
     return case
 
 
@@ -85,8 +87,15 @@ def observe(case):
         names = sorted({x[9] for rows in list(crow.values()) + list(trow.values()) for x in rows})
         short = {n: shorten_name(n) for n in names}
         canon: Dict[str, Any] = {}
+        ac, at = lc, lt
+        form = p.get("arg_form", "labeled")
+        if form == "trace" and not p["same_object"]:
+            ac = Trace(trace_files=dict(f1), trace_dir=os.path.dirname(next(iter(f1.values()))))
+            at = Trace(trace_files=dict(f2), trace_dir=os.path.dirname(next(iter(f2.values()))))
+        elif form == "dir" and not p["same_object"]:
+            ac, at = os.path.dirname(next(iter(f1.values()))), os.path.dirname(next(iter(f2.values())))
         try:
-            df = TraceDiff.compare_traces(lc, lt, p["control_rank"], p["test_rank"], p["control_iteration"],
+            df = TraceDiff.compare_traces(ac, at, p["control_rank"], p["test_rank"], p["control_iteration"],
                                           p["test_iteration"], DeviceType[p["device"]], p["short"])
             cols = list(df.columns)  # [<control>_counts, <control>_total_duration, <test>_counts, <test>_total_duration, diff_counts, diff_duration, ...]
             canon["table"] = {str(n): [C.num(rec.iloc[0]), C.num(rec.iloc[2]), C.num(rec.iloc[1]), C.num(rec.iloc[3]),
@@ -95,7 +104,7 @@ def observe(case):
             canon["columns_ok"] = (len(cols) == 7 and cols[0].endswith("_counts") and cols[2].endswith("_counts")
                                    and cols[1].endswith("_total_duration") and cols[3].endswith("_total_duration") and cols[0] != cols[2])
             canon["n_rows"] = len(df)
-            od = TraceDiff.ops_diff(lc, lt, p["control_rank"], p["test_rank"], p["control_iteration"], p["test_iteration"],
+            od = TraceDiff.ops_diff(ac, at, p["control_rank"], p["test_rank"], p["control_iteration"], p["test_iteration"],
                                     DeviceType[p["device"]])
             canon["ops_diff"] = {k: sorted(map(str, v)) for k, v in od.items()}
         except Exception as e:  # noqa: BLE001
@@ -199,7 +208,7 @@ def oracle(case, obs) -> List[str]:
 def features(case, obs):
     f = {"same": int(case["params"]["same"]), "same_object": int(case["params"]["same_object"]),
          "short": int(case["params"]["short"]), "multi_rank_sel": int(isinstance(case["params"]["control_rank"], list) and len(case["params"]["control_rank"]) > 1),
-         "dev_" + case["params"]["device"]: 1}
+         "dev_" + case["params"]["device"]: 1, "arg_" + case["params"].get("arg_form", "labeled"): 1}
     c = obs["canon"]
     if "raises" not in c:
         for k, v in c["ops_diff"].items():
